@@ -43,7 +43,8 @@ def default_caps():
     # setValue's shape: parent setValue, membership test, add
     sv = find_def(t, 'setValue', 'DefaultCapabilities')
     need(len(sv.body) == 2 and isinstance(sv.body[1], ast.If), 'DefaultCapabilities.setValue: expected call + if')
-    need(ast.unparse(sv.body[1].test) == "'-owner' not in self.value and (not allowDefaultOwner)",
+    # the membership test must look at the stored elements: CapabilitySet.__contains__ also answers True for the inverse `owner`
+    need(ast.unparse(sv.body[1].test) == "'-owner' not in set(self.value) and (not allowDefaultOwner)",
          'DefaultCapabilities.setValue test changed: ' + ast.unparse(sv.body[1].test))
     need(ast.unparse(sv.body[1].body[-1]) == "self.value.add('-owner')", 'DefaultCapabilities.setValue no longer adds -owner')
     return caps
